@@ -61,6 +61,10 @@ void args_seen(int& a, std::string& s) { sim::Untracked u; M->nargs_seen = 2; M-
 void args_seen(int& a, std::string& s, int& b) { sim::Untracked u; M->nargs_seen = 3; M->got_int1 = a; M->got_str = s; M->got_int2 = b; a += 1000; }
 
 int g_body_yields = 0;
+// Plain (TSan-visible) result of the callable.  An owner that has seen isFinished()==true reads it before join(): "finished
+// only after the callable has returned" is a happens-before claim, so in the T-flavour a completion flag that is published
+// without release/acquire ordering shows up as a data race on this variable.
+int g_result = 0;
 
 template <class... A>
 void invoked(const Tracker* tr, A&... a) {
@@ -71,6 +75,7 @@ void invoked(const Tracker* tr, A&... a) {
     args_seen(a...);
     for (int i = 0; i < g_body_yields; i++) sim::yield();
     if (tr) tr->check("exit");
+    g_result = 4242;
     sim::ev(E_CALL_END, 0, 0);
     { sim::Untracked u; M->calls_ended++; }
 }
@@ -171,6 +176,7 @@ tulz::Thread* do_launch(int kind, int path, int nargs, int& a, std::string& s, i
 void body(const Json& p) {
     int kind = (int)p.get("callable", 1), path = (int)p.get("path", 0), nargs = (int)p.get("nargs", 0);
     g_body_yields = (int)p.get("body_yields", 0);
+    g_result = 0;
     int a = 41, b = 43;
     std::string s = "lvalue-string-argument-that-does-not-fit-into-the-small-string-buffer";
     sim::ev(E_LAUNCH_CALL, kind, nargs);
@@ -197,6 +203,7 @@ void body(const Json& p) {
                 sim::yield_poll();
             }
             finished_implies_ended("after spinning");
+            if (g_result != 4242) sim::violation("finished-too-early", "isFinished() is true but the callable's result is not visible to the owner");
         }
     }
     sim::ev(E_JOIN_CALL, 0, 0);
@@ -252,7 +259,7 @@ bool owns(const std::string& prop, const std::string& c) {
     if (prop != "C20") return false;
     static const std::set<std::string> s = {"dead-callable", "not-a-new-thread", "finished-too-early", "call-count", "not-finished-after-join", "runnable-not-destroyed-once",
                                             "runnable-destroyed-while-running", "wrong-arguments", "callable-leaked", "join-hang", "terminate", "crash-signal", "tulz-assert"};
-    return s.count(c) > 0 || c.rfind("asan:", 0) == 0;
+    return s.count(c) > 0 || c.rfind("asan:", 0) == 0 || c.rfind("tsan:", 0) == 0;
 }
 
 void generate(sim::Rng& g, const std::string&, const std::string& tier, Json& program, sim::Config& cfg) {
